@@ -28,7 +28,7 @@ EXPLANATION = (
     "dialect differences between python re/numpy and rust."
 )
 LEVEL_RULE = "one obligation per (check, option assignment, backend) / signature / twin effect site"
-FLOORS = {"R1": 40, "R2": 1, "R3": 40, "R4": 10, "R5": 4, "R6": 2}
+FLOORS = {"R1": 40, "R2": 1, "R3": 40, "R4": 10, "R5": 4, "R6": 2, "R7": 1, "R8": 2}
 
 PD = "pandera/backends/pandas/builtin_checks.py"
 PL = "pandera/backends/polars/builtin_checks.py"
@@ -419,6 +419,98 @@ def r6_no_truthiness_of_default(ctx, ix=None):
     ctx.stats["truthiness_tests_of_default"] = n
 
 
+def r7_polars_default_fills_nulls(ctx):
+    """pandas fills every missing value of a column with its default (`fillna`).  polars distinguishes null from NaN,
+    so the fill expression of the polars column backend must apply `fill_null` on every path (a float column may
+    additionally `fill_nan`): a path with `fill_nan` only leaves the nulls of a float column in place, and the polars
+    schema rejects (or returns with nulls) a table the pandas schema fills and accepts."""
+    ix = ctx.ix
+    m = ix.module("pandera/backends/polars/components.py")
+    cb = m.classes.get("ColumnBackend")
+    f0 = cb.lookup("set_default") if cb is not None else None
+    if f0 is None:
+        raise AnalysisError("polars ColumnBackend.set_default missing")
+    ctx.touched(f0)
+    f = expanded(ix, f0)
+    cfg = cfg_of(f.node)
+    rd = cfg.reaching_defs()
+    sinks = [c for c in calls_in(f.node) if callee_last(c) in ("with_columns", "select") and c.args]
+    if not sinks:
+        raise AnalysisError("polars ColumnBackend.set_default: no with_columns(...) found")
+
+    def fills(expr, nid, seen):
+        """every value `expr` may have at node nid went through .fill_null(...)"""
+        if any(isinstance(x, ast.Call) and callee_last(x) == "fill_null" for x in ast.walk(expr)):
+            return True
+        names = [x for x in ast.walk(expr) if isinstance(x, ast.Name) and isinstance(x.ctx, ast.Load)]
+        for nm in names:
+            defs = rd.get(nid, {}).get(nm.id, set())
+            real = [d for d in defs if cfg.nodes[d].kind == "stmt" and isinstance(cfg.nodes[d].ast, (ast.Assign, ast.AnnAssign))]
+            if not real or len(real) != len(defs):
+                continue
+            if all((d, nm.id) in seen or fills(cfg.nodes[d].ast.value, d, seen | {(d, nm.id)}) for d in real):
+                return True
+        return False
+
+    from ..util import enclosing_stmt
+    for c in sinks:
+        node = cfg.node_of(enclosing_stmt(c))
+        ok = node is not None and fills(c.args[0], node.id, frozenset())
+        ctx.ob("R7", f0, "polars set_default fills nulls on every path (fill_nan alone does not)", ok,
+               "every definition reaching the fill expression applies fill_null" if ok else
+               f"some path reaches `{txt(c)[:50]}` with a fill expression that never applies fill_null (float columns: fill_nan only): "
+               "pl.DataFrame({'a': [1.0, None]}) validated by Column(float, default=1.5) is rejected for its null, the same pandas table is filled and accepted",
+               f0.loc(c))
+
+
+def r8_add_missing_columns_keeps_frame(ctx):
+    """add_missing_columns adds the declared columns that are absent; it does not remove or reorder what the frame
+    already has (strict is a separate option).  The column selection that fixes the final order therefore has to be
+    computed from the frame's own columns as well - a selection built from schema.columns alone drops every undeclared
+    column and moves the existing ones to schema order on one backend only."""
+    ix = ctx.ix
+    for q in (PDC, PLC):
+        f0 = ix.cls(q).lookup("add_missing_columns")
+        if f0 is None:
+            raise AnalysisError(f"{q}.add_missing_columns missing")
+        ctx.touched(f0)
+        f = expanded(ix, f0)
+        data = f0.positional[1]
+        ex = Expander(f.node)
+        flavour = "polars" if "/polars/" in q else "pandas"
+        sels = []
+        for c in calls_in(f.node):
+            if callee_last(c) == "select" and isinstance(c.func, ast.Attribute) and c.args:
+                sels.append((c, c.args[0]))
+        for n in walk_no_nested(f.node):
+            if isinstance(n, ast.Subscript) and isinstance(n.ctx, ast.Load) and isinstance(n.slice, ast.Name) and isinstance(n.value, ast.Name) \
+                    and isinstance(getattr(n, "_parent", None), (ast.Assign, ast.Return)):
+                sels.append((n, n.slice))
+        if not sels:
+            ctx.ob("R8", f0, f"{flavour} add_missing_columns keeps the frame's own columns", True, "no re-selection of columns: columns are only added")
+            continue
+        for node, a in sels:
+            from_frame = False
+            for d in ex.closure(a):
+                for x in ast.walk(d):
+                    if isinstance(x, ast.Attribute) and x.attr == "columns" and isinstance(x.value, ast.Name) and x.value.id == data:
+                        from_frame = True
+                    if isinstance(x, ast.Call) and callee_last(x) in ("get_lazyframe_column_names", "collect_schema") and data in txt(x):
+                        from_frame = True
+            # accumulators filled while looping over the frame's columns
+            for nm in {x.id for d in ex.closure(a) for x in ast.walk(d) if isinstance(x, ast.Name)} | ({a.id} if isinstance(a, ast.Name) else set()):
+                for lp in walk_no_nested(f.node):
+                    if isinstance(lp, ast.For) and any(isinstance(x, ast.Attribute) and x.attr == "columns" and isinstance(x.value, ast.Name) and x.value.id == data
+                                                       for x in ast.walk(lp.iter)):
+                        if any(isinstance(cc, ast.Call) and isinstance(cc.func, ast.Attribute) and cc.func.attr in ("append", "extend", "insert")
+                               and isinstance(cc.func.value, ast.Name) and cc.func.value.id == nm for cc in ast.walk(lp)):
+                            from_frame = True
+            ctx.ob("R8", f0, f"{flavour} add_missing_columns keeps the frame's own columns", from_frame,
+                   "the final column order is computed from the frame's columns and the missing ones" if from_frame else
+                   f"`{txt(node)[:60]}` selects the schema's columns only: undeclared columns of the incoming frame are dropped and existing ones reordered "
+                   "(pandas keeps both) - the parsed tables differ between the backends", f0.loc(node))
+
+
 def r1_pyspark(ctx):
     """thorough: pyspark forms where expressible (best effort, never a VIOLATION source on unknown forms)."""
     ix = ctx.ix
@@ -448,6 +540,8 @@ def run(ctx):
     r5_uniqueness_nulls(ctx)
     r6_default_declared(ctx)
     r6_no_truthiness_of_default(ctx)
+    r7_polars_default_fills_nulls(ctx)
+    r8_add_missing_columns_keeps_frame(ctx)
     if ctx.tier == "thorough":
         r1_pyspark(ctx)
     ctx.assume("pandas operators/str accessors and polars expression methods have their documented element-wise meaning")
